@@ -50,3 +50,13 @@ Proof.
   split; [|split; assumption].
   destruct W0 as [W| ->]; [exact (wf_size r W)|cbn; lia].
 Qed.
+
+(* after every history, destroying whatever a buffer variable holds destroys exactly the elements it holds, each
+   once, and nothing that is not an element *)
+Lemma ring_reachable_destroy : forall ow ops b r,
+  env_get (ring_run fixed_variant ow env0 ops) b = Some r ->
+  forallb (@ev_ok Z) (destroy r) = true /\ removed (destroy r) = items r.
+Proof.
+  intros ow ops b r G. apply destroy_events.
+  exact (env_get_wf0 _ _ _ (ring_wf_reachable ow ops) G).
+Qed.
